@@ -143,3 +143,38 @@ def consent_tables():
         text += "Definition T_%s : Z := %d.\n" % (k, v)
     vlib.write_if_changed(os.path.join(vlib.COQ, "Gen", "Consent.v"), text)
     return consts, ""
+
+
+def cred_tables():
+    """coq/Gen/IceChars.v: the character table of nice_rng_generate_bytes_print (random/random.c), the default credential
+    lengths of agent/stream.h and a shape check of nice_stream_initialize_credentials / nice_stream_restart (agent/stream.c)."""
+    src = open(os.path.join(vlib.REPO, "random/random.c")).read()
+    m = re.search(r"nice_rng_generate_bytes_print \(NiceRNG \*rng, guint len, gchar \*buf\)\s*\{(.*?)\n\}", src, re.S)
+    if not m:
+        return None, "nice_rng_generate_bytes_print not found"
+    body = m.group(1)
+    t = re.search(r"const gchar \*chars =\s*((?:\"[^\"]*\"\s*)+);", body)
+    if not t:
+        return None, "character table not found in nice_rng_generate_bytes_print"
+    chars = "".join(re.findall(r"\"([^\"]*)\"", t.group(1)))
+    flat = re.sub(r"\s+", " ", body)
+    if "for (i = 0; i < len; i++) buf[i] = chars[nice_rng_generate_int (rng, 0, strlen (chars))];" not in flat:
+        return None, "nice_rng_generate_bytes_print no longer has the modelled loop"
+    hdr = open(os.path.join(vlib.REPO, "agent/stream.h")).read()
+    mu = re.search(r"#define NICE_STREAM_DEF_UFRAG\s+(\d+) \+ 1", hdr); mp = re.search(r"#define NICE_STREAM_DEF_PWD\s+(\d+) \+ 1", hdr)
+    if not mu or not mp:
+        return None, "NICE_STREAM_DEF_UFRAG / NICE_STREAM_DEF_PWD not found"
+    st = re.sub(r"/\*.*?\*/", " ", open(os.path.join(vlib.REPO, "agent/stream.c")).read(), flags=re.S)
+    st = re.sub(r"\s+", " ", st)
+    for need in ["nice_rng_generate_bytes_print (rng, NICE_STREAM_DEF_UFRAG - 1, stream->local_ufrag);",
+                 "nice_rng_generate_bytes_print (rng, NICE_STREAM_DEF_PWD - 1, stream->local_password);",
+                 "stream->remote_ufrag[0] = 0; stream->remote_password[0] = 0;",
+                 "conn_check_prune_stream (agent, stream); stream->initial_binding_request_received = FALSE; nice_stream_initialize_credentials (stream, agent->rng);",
+                 "nice_component_restart (component, agent); agent_signal_component_state_change (agent, stream->id, component->id, NICE_COMPONENT_STATE_GATHERING);"]:
+        if need not in st:
+            return None, "agent/stream.c no longer contains the modelled statement `%s`" % need
+    text = "(* GENERATED from random/random.c, agent/stream.h (shape of agent/stream.c checked) by lib/tabgen.py - do not edit *)\nFrom Coq Require Import ZArith List.\nImport ListNotations.\nLocal Open Scope Z_scope.\n"
+    text += "Definition ice_chars : list Z := [%s].\n" % "; ".join(str(ord(c)) for c in chars)
+    text += "Definition DEF_UFRAG_LEN : nat := %s.\nDefinition DEF_PWD_LEN : nat := %s.\n" % (mu.group(1), mp.group(1))
+    vlib.write_if_changed(os.path.join(vlib.COQ, "Gen", "IceChars.v"), text)
+    return {"chars": chars, "ufrag": int(mu.group(1)), "pwd": int(mp.group(1))}, ""
